@@ -9,3 +9,4 @@ import WrglModel.Props.C01
 #print axioms Wrgl.C01_overlimit_refused
 #print axioms Wrgl.C01_config_independent
 #print axioms Wrgl.C01_row_roundtrip
+#print axioms Wrgl.C01_key_order_is_not_a_flattened_order
